@@ -212,7 +212,7 @@ def shards(tier, seed):
     n = 48 if tier == 'quick' else 256
     step = (total + n - 1) // n
     items = [('strings', lo, min(total, lo + step)) for lo in range(0, total, step)]
-    items += [('decimal',), ('rawbytes',), ('long',), ('misc',), ('cli',)]
+    items += [('decimal',), ('rawbytes',), ('long',), ('misc',), ('cli',), ('twostrings',)]
     try:
         from props import c08
         items += c08.program_shards(tier, seed, tag='c06')
@@ -263,6 +263,21 @@ def run_shard(item):
                 probs = check_source(s2, res, 'misc', chunked=ch)
                 if probs:
                     report(s2, probs, res, 'misc', 'misc%d' % MISC.index(src))
+    elif kind == 'twostrings':
+        lits = [b'"a"', b"'a'", b'" b"', b"' b'", b'"a\\z  "', b"'\\z'", b'"\\z\n  c"', b'"\\x41"', b'"\\0"', b'"\\0001"',
+                b'"don\'t"', b"'don\\'t'", b'"\\""', b"'\"'", b'[[a]]', b'[[ b]]', b'[=[]]]=]', b'"\\\n d"', b'""', b"''",
+                b'"\x0e1"', b'"\xff"']
+        for a in lits:
+            for b in lits:
+                for sep in (b' y=', b'\ny=', b',') :
+                    src = b'x=' + a + sep + b + (b'' if sep != b',' else b'') + b'\n'
+                    if sep == b',':
+                        src = b'x,y=' + a + b',' + b + b'\n'
+                    for chunked in (False, True):
+                        probs = check_source(src, res, 'twostrings', chunked=chunked)
+                        if probs:
+                            report(src, probs, res, 'twostrings', 'pair')
+        res.sample({'src': b'x="a\\z  " y=" b"\n'})
     elif kind == 'cli':
         cli_batch(res)
         res.sample({'cli': 'p8tool writep8 in.p8 ; p8tool build out.p8 --lua in.p8 ; build out.p8.png --lua in.lua'})
